@@ -76,13 +76,15 @@ def gen_call(rng, sig):
         if p["default"] is not None and rng.random() < 0.4:
             by_kw = True   # skipped: later ones can only come by keyword
             continue
+        # (now and then the argument is None, also where the parameter has another default)
+        value = ["n"] if rng.random() < 0.08 else ["o", next(tag)]
         if by_kw or (kwable and rng.random() < 0.3):
             if not kwable:
                 continue
             by_kw = True
-            kwargs[p["name"]] = ["o", next(tag)]
+            kwargs[p["name"]] = value
         else:
-            args.append(["o", next(tag)])
+            args.append(value)
     if sig["varpos"] and not by_kw and not sig["kwonly"] and rng.random() < 0.5:
         for _ in range(rng.choice([1, 2])):
             args.append(["o", next(tag)])
